@@ -76,7 +76,6 @@ Fixpoint ctxs_of (s1 s2 : bool) (h : list hop) : list value :=
   | _ :: r => ctxs_of s1 s2 r
   end.
 
-Definition builtin_both (_ : bool) : raw -> value -> option (bool * option string) := builtin_oblig.
 Definition norm_of (sort : bool) (v : value) : value := if sort then canon v else v.
 
 (* cg.run sort cache copying g1 g2 facts history
